@@ -666,3 +666,14 @@ for _p, _r in (("C16", "R-C16-forms"), ("C13", "R-C13-radius")):
 _OLD_TK = "    pre_syn_neurons = pre_syn_neurons[sorting]\n    post_syn_neurons = post_syn_neurons[sorting]"
 P("C20", CO, _OLD_TK, "    pre_syn_neurons = np.take(pre_syn_neurons, sorting)\n    post_syn_neurons = np.take(post_syn_neurons, sorting)")
 B("C20", CO, "post_syn_neurons = np.random.choice(post_cell_inds, size=num_connections)", "post_syn_neurons = np.random.choice(post_cell_inds, size=num_post)", "R-C20-length")
+# positions of the connectivity matrix: argwhere columns, transposed lookups; numpy function / method spellings of the layout
+_OLD_W = "    from_idx, to_idx = np.where(connectivity_matrix)"
+P("C20", CO, _OLD_W, "    pairs = np.argwhere(connectivity_matrix)\n    from_idx, to_idx = pairs[:, 0], pairs[:, 1]")
+B("C20", CO, _OLD_W, "    pairs = np.argwhere(connectivity_matrix)\n    from_idx, to_idx = pairs[:, 1], pairs[:, 0]", "R-C20-roles")
+B("C20", CO, _OLD_W, "    from_idx, to_idx = np.where(connectivity_matrix.T)", "R-C20-roles")
+P("C20", CO, _OLD_W, "    to_idx, from_idx = np.where(connectivity_matrix.T)")
+_OLD_RS = "global_post_indices = global_post_indices.reshape((num_post, num_pre)).T.ravel()"
+P("C20", CO, _OLD_RS, "global_post_indices = global_post_indices.reshape(num_post, num_pre).transpose().reshape(-1)")
+_OLD_RP = "pre_rows = pre_rows.loc[pre_rows.index.repeat(num_post)].reset_index(drop=True)"
+P("C20", CO, _OLD_RP, "pre_rows = pre_rows.loc[np.repeat(pre_rows.index, num_post)].reset_index(drop=True)")
+B("C20", CO, _OLD_RP, "pre_rows = pre_rows.loc[np.tile(pre_rows.index, num_post)].reset_index(drop=True)", "R-C20-layout")
